@@ -467,17 +467,18 @@ class Client(ClientLike):
         Args:
             msg_list (Iterable[int]): A list of numeric message IDs to subscribe to
         """
-        msg_list = list(msg_list)  # cast arbitrary iterable to list
+        sub_list = []
         for mt in msg_list:
             if mt in self.subscribed_types:
                 warn(
                     f"Message ID {mt} is already subscribed, ignored from subscription_context"
                 )
-                msg_list.remove(mt)
+            else:
+                sub_list.append(mt)
 
-        self.subscribe(msg_list)
+        self.subscribe(sub_list)
         yield
-        self.unsubscribe(msg_list)
+        self.unsubscribe(sub_list)
 
     @contextmanager
     def paused_subscription_context(self, msg_list: Iterable[int]):
@@ -489,17 +490,18 @@ class Client(ClientLike):
             msg_list (Iterable[int]): A list of numeric message IDs to temporarily unsubscribe to
         """
 
-        msg_list = list(msg_list)  # cast arbitrary iterable to list
+        pause_list = []
         for mt in msg_list:
             if mt not in self.subscribed_types:
                 warn(
                     f"Message ID {mt} is not subscribed, ignored from paused_subscription_context"
                 )
-                msg_list.remove(mt)
+            else:
+                pause_list.append(mt)
 
-        self.pause_subscription(msg_list)
+        self.pause_subscription(pause_list)
         yield
-        self.resume_subscription(msg_list)
+        self.resume_subscription(pause_list)
 
     @requires_connection
     def send_signal(
